@@ -279,7 +279,29 @@ def run_history(ops, world, rec, rng, tag, pool=None):
         state_before = (ndefs, tuple(stack), system)
         if op == "define":
             if ndefs < len(NEWDEFS):
-                ureg.define(NEWDEFS[ndefs])
+                try:
+                    ureg.define(NEWDEFS[ndefs])
+                except Exception as e:  # noqa: BLE001
+                    # the fresh twin takes every line of NEWDEFS, so a definition the aged registry
+                    # refuses is itself an answer that depends on the history
+                    lost = closure_defs(defined_inside_redef)
+                    rec.violation("answer-depends-on-history",
+                                  {"question": ["define", NEWDEFS[ndefs]], "aged_registry": f"{type(e).__name__}: {e}"[:300],
+                                   "fresh_twin": "accepted", "state": repr(state_before),
+                                   "trace": [list(map(str, t)) for t in trace[-10:]]},
+                                  question_kind="define", redefining_context_active="vredef" in stack,
+                                  redefining_context_used_earlier=any(t == ("enable", "vredef") for t in trace)
+                                  and "vredef" not in stack,
+                                  touches_base_units=False, workload=tag,
+                                  asks_about_name_first_read_as_prefixed_unit_then_defined=False,
+                                  asks_about_unit_defined_inside_redefining_context=any(
+                                      n in NEWDEFS[ndefs] for n in lost))
+                    defined_inside_redef.add(DEFNAMES[ndefs])
+                    rec.count("definitions_refused_by_aged_registry")
+                else:
+                    if "vredef" not in stack:
+                        # defined (again) outside the redefining context: this name is no longer lost
+                        defined_inside_redef.discard(DEFNAMES[ndefs])
                 if "vredef" in stack:
                     defined_inside_redef.add(DEFNAMES[ndefs])
                 ndefs += 1
@@ -375,7 +397,7 @@ def run_history(ops, world, rec, rng, tag, pool=None):
 
 def closure_defs(names):
     """vfu1 is built on vfu0, vfu2 on vfu1, vfu3 on vfu0: a lost unit breaks its dependants."""
-    dep = {"vfu1": {"vfu0"}, "vfu2": {"vfu1", "vfu0"}, "vfu3": {"vfu0"}}
+    dep = {"vfu1": {"vfu0"}, "vfu2": {"vfu1", "vfu0"}, "vfu3": {"vfu0"}, "kyd": {"vfu0"}}
     out = set(names)
     for k, v in dep.items():
         if v & out:
